@@ -66,14 +66,15 @@ func (l lift) scalarJSON(kind string, id int) string {
 	case []byte:
 		b, _ := stdjson.Marshal(string(v))
 		return string(b)
-	case [4]byte:
-		b, _ := stdjson.Marshal(string(v[:]))
-		return string(b)
 	case float32:
 		return strconv.FormatFloat(float64(v), 'g', -1, 32)
 	case float64:
 		return strconv.FormatFloat(v, 'g', -1, 64)
 	default:
+		if rv := reflect.ValueOf(v); rv.Kind() == reflect.Array {
+			b, _ := stdjson.Marshal(string(l.scalarBytes(kind, id)))
+			return string(b)
+		}
 		return fmt.Sprint(v)
 	}
 }
@@ -479,8 +480,9 @@ func manualRewriter(l lift, f pField, n int, x pVal) proto.Rewriter {
 		return fn.String(v)
 	case []byte:
 		return fn.Bytes(v)
-	case [4]byte:
-		return fn.Bytes(v[:])
+	}
+	if arrLen(f.K) > 0 {
+		return fn.Bytes(l.scalarBytes(f.K, id))
 	}
 	return nil
 }
